@@ -95,7 +95,13 @@ fn window(env: &Env) -> Vec<u32> {
 fn random_table(rng: &mut Rng, dense: bool) -> Vec<(u32, u32, bool)> {
     let n = rng.range(0, 40);
     let mut t = Vec::new();
-    let mut next = rng.below(5) as u32;
+    // tables anywhere in the u32 range, not only near zero
+    let mut next = match rng.below(4) {
+        0 => rng.below(5) as u32,
+        1 => 0x7FFF_FF00 + rng.below(0x200) as u32,
+        2 => u32::MAX - rng.below(200_000) as u32,
+        _ => (rng.next() as u32) >> rng.below(24),
+    };
     for _ in 0..n {
         let gap = if dense { rng.below(3) as u32 } else { rng.below(4000) as u32 };
         let start = match next.checked_add(gap) {
@@ -184,6 +190,50 @@ pub fn run(env: &Env) -> Rec {
         }
     }
     rec.count_n("observed-only:Codepoints==Codepoints asymmetric pairs (not part of C18)", asym);
+    // magnitudes: special values across the whole u32 range (powers of two and their neighbours, 2^31 region,
+    // 0xFFFF/0x10000 straddles) as a, b and cp, exhaustively over the special set; then random triples
+    let mut special: Vec<u32> = vec![0, 1, 2, 0xFFFE, 0xFFFF, 0x10000, 0x10001, 0x10FFFF, 0x110000, u32::MAX - 1, u32::MAX];
+    for sh in 1..32 {
+        let p = 1u32 << sh;
+        special.extend([p - 1, p, p.wrapping_add(1)]);
+    }
+    special.extend([0x7FFF_FFFE, 0x7FFF_FFFF, 0x8000_0000, 0x8000_0001, 0xFFFF_0000, 0x0001_0000, 0xAAAA_AAAA, 0x5555_5555]);
+    special.sort();
+    special.dedup();
+    let ns = special.len();
+    let rs = par(ns, |i, rec| {
+        let a = special[i];
+        for &cp in &special {
+            check_pair(a, a, false, cp, rec);
+        }
+        for &b in &special[i..] {
+            for &cp in &special {
+                check_pair(a, b, true, cp, rec);
+            }
+        }
+    });
+    rec.merge(rs);
+    rec.exhaustive(format!("all Single/Range entries and code points over {} special magnitudes (powers of two +-1 up to 2^31, 0xFFFF/0x10000, u32::MAX)", ns));
+    let n_tri = env.n(3_000_000, 100_000_000);
+    let rt = par(n_tri / 50_000, |i, rec| {
+        let mut rng = Rng::stream(env.seed, 0x18_8000 + i as u64);
+        let pickv = |rng: &mut Rng| -> u32 {
+            match rng.below(4) {
+                0 => rng.next() as u32,
+                1 => special[rng.below(special.len())].wrapping_add(rng.below(5) as u32).wrapping_sub(2),
+                2 => (rng.next() as u32) >> rng.below(32),
+                _ => rng.below(0x120000) as u32,
+            }
+        };
+        for _ in 0..50_000 {
+            let (x, y, cp) = (pickv(&mut rng), pickv(&mut rng), pickv(&mut rng));
+            let (a, b) = if x <= y { (x, y) } else { (y, x) };
+            check_pair(a, b, true, cp, rec);
+            check_pair(a, b, true, if rng.chance(1, 2) { a } else { b }, rec);
+            check_pair(x, x, false, cp, rec);
+        }
+    });
+    rec.merge(rt);
     // random sorted disjoint tables, searched the way the library searches
     let n_tables = env.n(200_000, 5_000_000);
     let per = 500;
